@@ -28,18 +28,24 @@ abbrev Bytes := List UInt8
 
 def ofStr (s : String) : Bytes := s.toUTF8.toList
 
+open Lean in
+/-- `b!"text"`: the UTF-8 bytes of a string literal as an explicit list literal (the kernel can compute with it; `ofStr` it cannot unfold) -/
+macro:max "b!" s:str : term => do
+  let elems := s.getString.toUTF8.toList.toArray.map fun b => Syntax.mkNumLit (toString b.toNat)
+  `(([$elems,*] : List UInt8))
+
 /-! ## strconv.Atoi -/
 
 inductive AtoiRes where
   | ok (v : Int)
-  | syntax
-  | range
+  | syntaxErr
+  | rangeErr
 deriving DecidableEq, Repr
 
 inductive UintRes where
   | ok (n : Nat)
-  | syntax
-  | range
+  | syntaxErr
+  | rangeErr
 deriving DecidableEq, Repr
 
 /-- `strconv.ParseUint(s, 10, 64)` on a non-empty string: the magnitude, or the first offence -/
@@ -48,23 +54,23 @@ def parseUint : Nat → Bytes → UintRes
 | acc, c :: r =>
   if 48 ≤ c.toNat ∧ c.toNat ≤ 57 then
     let n := acc * 10 + (c.toNat - 48)
-    if n ≥ 2 ^ 64 then .range else parseUint n r
-  else .syntax
+    if n ≥ 2 ^ 64 then .rangeErr else parseUint n r
+  else .syntaxErr
 
 /-- `strconv.Atoi` on a 64-bit platform -/
 def atoi (s : Bytes) : AtoiRes :=
   match s with
-  | [] => .syntax
+  | [] => .syntaxErr
   | c :: r =>
     let neg := c == 45
     let body := if c == 43 || c == 45 then r else s
-    if body.isEmpty then .syntax else
+    if body.isEmpty then .syntaxErr else
     match parseUint 0 body with
     | .ok n =>
-      if neg then (if n > 2 ^ 63 then .range else .ok (-(n : Int)))
-      else (if n ≥ 2 ^ 63 then .range else .ok (n : Int))
-    | .syntax => .syntax
-    | .range => .range
+      if neg then (if n > 2 ^ 63 then .rangeErr else .ok (-(n : Int)))
+      else (if n ≥ 2 ^ 63 then .rangeErr else .ok (n : Int))
+    | .syntaxErr => .syntaxErr
+    | .rangeErr => .rangeErr
 
 /-! ## strings.Fields -/
 
@@ -197,11 +203,11 @@ deriving DecidableEq, Repr
 
 /-- the literal at the top of `Setup` (package-level `default…` variables substituted) -/
 def defaults : Cfg :=
-  { confFile := ofStr "./redis.conf"
-    host := ofStr "127.0.0.1"
+  { confFile := b!"./redis.conf"
+    host := b!"127.0.0.1"
     port := 6380
-    logDir := ofStr "./"
-    logLevel := ofStr "info"
+    logDir := b!"./"
+    logLevel := b!"info"
     shardNum := 1024
     chanBufferSize := 10
     databases := 16
@@ -284,20 +290,20 @@ def applyDir (o : Oracle) (c : Cfg) : Key → Bytes → Outcome
 | .port, v =>
   match atoi v with
   | .ok p => if p ≤ 1024 ∨ p ≥ 65535 then .error (.portBounds p) else .ok { c with port := p }
-  | .syntax => .error .portSyntax
-  | .range => .error .portRange
+  | .syntaxErr => .error .portSyntax
+  | .rangeErr => .error .portRange
 | .logdir, v => .ok { c with logDir := goToLower o v }
 | .loglevel, v => .ok { c with logLevel := goToLower o v }
 | .shardnum, v =>
   match atoi v with
   | .ok n => .ok { c with shardNum := n }
-  | .syntax => .panic .shardSyntax
-  | .range => .panic .shardRange
+  | .syntaxErr => .panic .shardSyntax
+  | .rangeErr => .panic .shardRange
 | .databases, v =>
   match atoi v with
   | .ok n => if n ≤ 0 then .fatal .dbNonPositive else .ok { c with databases := n }
-  | .syntax => .fatal .dbSyntax
-  | .range => .fatal .dbRange
+  | .syntaxErr => .fatal .dbSyntax
+  | .rangeErr => .fatal .dbRange
 | .other name, v => .ok { c with others := (name, v) :: c.others }
 
 def applyLine (o : Oracle) (c : Cfg) (line : Bytes) : Outcome :=
@@ -349,5 +355,8 @@ def startup (o : Oracle) (c0 : Cfg) (file : Bytes) (unm : Cfg → Cfg × Bool) :
 
 /-- `server.NewManager`: `make([]*memdb.MemDb, cfg.Databases)` -/
 def dbCount (c : Cfg) : Nat := c.databases.toNat
+
+/-- `len(server.NewManager(&Config{Databases: n}).DBs)`; `none` = panic (`make` with a negative length, `DBs[0]` of an empty slice) -/
+def newManager (n : Int) : Option Nat := if n ≤ 0 then none else some n.toNat
 
 end Config
